@@ -41,6 +41,7 @@ pub struct Ins {
 pub struct M {
     depth: usize,
     stacks: bool,
+    values: &'static [&'static str],
 }
 
 fn scopes() -> Vec<Sc> {
@@ -186,7 +187,8 @@ impl Model for M {
         for scope in scopes() {
             for beh in BEHS {
                 for name in ["X", "Y"] {
-                    for value in ["", "x", "y"] {
+                    for value in self.values {
+                        let value: &'static str = value;
                         out.push(Ins { scope: scope.clone(), beh, name, value });
                     }
                 }
@@ -214,26 +216,39 @@ pub fn run(args: &Args) {
         replay(path, &mut rep);
         rep.finish();
     }
-    let depth = if args.thorough() { 4 } else { 3 };
+    const FULL: &[&str] = &["", "x", "y"];
+    const REDUCED: &[&str] = &["", "x"];
+    let depth = 3;
     // phase 1: BFS over insert sequences from the empty environment
-    let m = M { depth, stacks: false };
+    let m = M { depth, stacks: false, values: FULL };
     let r = bfs_levels(&m, &BfsOpts { max_depth: depth, max_wall: std::time::Duration::from_secs(if args.thorough() { 1500 } else { 240 }), ..Default::default() });
     // phase 2: the complete behaviour stacks (+1 further insert)
-    let m2 = M { depth: 1, stacks: true };
+    let m2 = M { depth: 1, stacks: true, values: FULL };
     let r2 = bfs_levels(&m2, &BfsOpts { max_depth: 1, ..Default::default() });
 
+    // phase 3 (thorough): depth 4 over the value set {"", "x"} (80 inserts)
+    let r3 = if args.thorough() {
+        let m3 = M { depth: 4, stacks: false, values: REDUCED };
+        Some(bfs_levels(&m3, &BfsOpts { max_depth: 4, max_wall: std::time::Duration::from_secs(1500), ..Default::default() }))
+    } else {
+        None
+    };
+    let (r3s, r3t) = r3.as_ref().map(|r| (r.states, r.transitions)).unwrap_or((0, 0));
     let evals_per_state = (query_scopes().len() * start_envs().len()) as u64;
-    rep.cov("states", r.states + r2.states);
-    rep.cov("transitions", r.transitions + r2.transitions);
-    rep.cov("traces_validated_against_impl", r.transitions + r2.transitions);
+    rep.cov("states", r.states + r2.states + r3s);
+    rep.cov("transitions", r.transitions + r2.transitions + r3t);
+    rep.cov("traces_validated_against_impl", r.transitions + r2.transitions + r3t);
+    if let Some(r3) = &r3 {
+        rep.cov("depth4_reduced", json!({"states": r3.states, "transitions": r3.transitions, "per_level": r3.per_level, "cap_hit": r3.cap_hit}));
+    }
     rep.cov("max_depth", r.max_depth as u64);
     rep.cov("per_level", json!({"insert_bfs": r.per_level, "stacks": r2.per_level}));
-    rep.cov("evaluations", (r.states + r2.states) * evals_per_state);
+    rep.cov("evaluations", (r.states + r2.states + r3s) * evals_per_state);
     // non-trivial = states with at least one entry (every one of them has >= 1 query whose result differs from the start env or tests non-interference)
-    rep.cov("distinct_nontrivial", r.states + r2.states - 2);
+    rep.cov("distinct_nontrivial", r.states + r2.states + r3s - 2);
     rep.cov("rule", "states = distinct abstract maps (scope,behaviour,name)->value reached by real LayerEnv::insert sequences (BFS from empty to the depth bound; plus all 3x(2^5x2^5-1) behaviour stacks on one name and one further insert); each state is evaluated for 5 query scopes x 4 starting environments against the reference rules; non-trivial = non-empty environment");
     rep.cov("bound", json!({"insert_depth": depth, "alphabet": "4 scopes x 5 behaviours x names {X,Y} x values {'',x,y} = 120 inserts", "stacks": "3 x 1023 init states, depth 1", "query": "5 scopes (incl. unknown process q) x 4 start envs (unset, empty, set, set+others)"}));
-    let capped = r.cap_hit.clone().or(r2.cap_hit.clone());
+    let capped = r.cap_hit.clone().or(r2.cap_hit.clone()).or(r3.as_ref().and_then(|x| x.cap_hit.clone()));
     rep.cov("exhaustive", capped.is_none());
     if let Some(c) = &capped {
         rep.cov("cap_hit", c.clone());
@@ -242,7 +257,8 @@ pub fn run(args: &Args) {
     rep.sample(json!({"stack_state": fmt_abs(&m2.init_states()[700].abs)}));
     rep.sample(json!({"stack_path": r2.deepest_path.iter().map(|a| format!("{a:?}")).collect::<Vec<_>>()}));
 
-    for (which, res) in [("insert_bfs", &r.violations), ("stacks", &r2.violations)] {
+    let empty = Vec::new();
+    for (which, res) in [("insert_bfs", &r.violations), ("stacks", &r2.violations), ("depth4_reduced", r3.as_ref().map(|x| &x.violations).unwrap_or(&empty))] {
         for cx in res.iter() {
             let (sig, what) = check_state(&cx.state).unwrap_or(("unknown".into(), "?".into()));
             rep.violation(
@@ -255,8 +271,8 @@ pub fn run(args: &Args) {
     // engine self-test: stateright's own BFS must see the same number of unique states
     if rep.n_violations() == 0 && capped.is_none() {
         let d = 2usize;
-        let mine = bfs_levels(&M { depth: d, stacks: false }, &BfsOpts { max_depth: d, ..Default::default() }).states;
-        let theirs = stateright_unique_states(M { depth: d, stacks: false }, None) as u64;
+        let mine = bfs_levels(&M { depth: d, stacks: false, values: FULL }, &BfsOpts { max_depth: d, ..Default::default() }).states;
+        let theirs = stateright_unique_states(M { depth: d, stacks: false, values: FULL }, None) as u64;
         rep.cov("engine_crosscheck", json!({"depth": d, "bfs_levels_states": mine, "stateright_spawn_bfs_states": theirs}));
         if mine != theirs {
             rep.machinery(format!("engine self-test failed: bfs_levels={mine} stateright={theirs}"));
